@@ -3750,6 +3750,11 @@ impl KotoVm {
                         break;
                     }
 
+                    // The popped frame didn't return: don't clobber the caller's result register
+                    let frame_count = self.call_stack.len();
+                    if frame_count >= 2 {
+                        self.call_stack[frame_count - 2].return_value_register = None;
+                    }
                     self.pop_frame(KValue::Null)?;
 
                     if !self.call_stack.is_empty() {
